@@ -178,7 +178,7 @@ theorem revocation_next_request (w : World) (row : Nat) (space : String) (a : Au
           simp [candidateOfGrant, this]
         · obtain ⟨acts, rfl, _⟩ := resolveDelegation_shape _ sp _ d c hd
           simp [delegatedCandidate]
-      · obtain ⟨d, _, hd⟩ := mem_resolveNamedChain _ sp _ _ _ _ (hC hch hact) c hc
+      · obtain ⟨d, _, _, hd⟩ := mem_resolveNamedChain _ sp _ _ _ _ (hC hch hact) c hc
         obtain ⟨acts, rfl, _⟩ := resolveDelegation_shape _ sp _ d c hd
         simp [delegatedCandidate]
     · rw [hI hact] at hc; simp at hc
@@ -238,6 +238,105 @@ example :
     (request w0 "kip:space:default" a "read" {} 2050).toOption.map (·.decision) = some .allow ∧
     (request (w0.revokeGrant 1) "kip:space:default" a "read" {} 2050).toOption.map (·.decision) = some .deny ∧
     (request (w0.setPrincipalStatus "p" "suspended") "kip:space:default" a "read" {} 2050).toOption.map (·.decision) = some .deny := by
+  decide
+
+/-- A refusal cites nothing. -/
+theorem deny_cites_nothing (ea : EA) (perm : String) (res : Resource) (a : Auth) (now : Nat)
+    (hd : (authorize ea perm res a now).decision = .deny) : (authorize ea perm res a now).authoritiesUsed = [] := by
+  by_cases h1 : ea.principalStatus ≠ "active"
+  · rw [authorize_inactive ea perm res a now h1]; rfl
+  by_cases h2 : ea.spaceStatus = "suspended"
+  · rw [authorize_suspended ea perm res a now h2]; rfl
+  cases h3 : ea.denyMatches perm (ea.effectiveResource res) a now with
+  | true => rw [authorize_deny ea perm res a now h3]; rfl
+  | false =>
+    cases hm : minByKey Candidate.restrictiveness (ea.allows perm (ea.effectiveResource res) a now) with
+    | none => rw [authorize_no_allows ea perm res a now (minByKey_eq_none _ _ hm)]; rfl
+    | some chosen =>
+      exfalso
+      revert hd
+      unfold authorize
+      simp only [h1, h2, h3, hm]
+      simp
+      split <;> simp
+      split <;> simp
+
+/-- Revoking a Delegation takes effect on the very next request: no resolution — direct, through a named
+chain, or as the linked parent of a re-delegation — has a candidate answering to the revoked row, and no
+decision cites it. -/
+theorem delegation_revocation_next_request (w : World) (row : Nat) (space : String) (a : Auth) (ea : EA)
+    (perm : String) (res : Resource) (now : Nat)
+    (hres : resolve (w.revokeDelegation row) space a = .ok ea) :
+    (∀ c ∈ ea.candidates, c.id ≠ .delegation row) ∧
+    (authorize ea perm res a now).authoritiesUsed ≠ [.delegation row] := by
+  obtain ⟨sp, p, _, _, _, _, _, _, hE, hC, hI⟩ := resolve_ok _ space a ea hres
+  have hcand : ∀ c ∈ ea.candidates, c.id ≠ .delegation row := by
+    intro c hc
+    by_cases hact : p.status = "active"
+    · by_cases hch : a.delegationChain = []
+      · obtain ⟨_, hor⟩ := mem_candidatesOf _ sp _ _ _ _ (hE hch) c hc
+        rcases hor with ⟨g, _, _, _, _, rfl⟩ | ⟨d, hd, hda, _, _, hr⟩
+        · simp [candidateOfGrant]
+        · obtain ⟨acts, rfl, _⟩ := resolveDelegation_shape _ sp _ d c hr
+          have := revokeDelegation_delegations w row d hd hda
+          simp [delegatedCandidate, this]
+      · obtain ⟨d, hd, hda, hr⟩ := mem_resolveNamedChain _ sp _ _ _ _ (hC hch hact) c hc
+        obtain ⟨acts, rfl, _⟩ := resolveDelegation_shape _ sp _ d c hr
+        have := revokeDelegation_delegations w row d hd hda
+        simp [delegatedCandidate, this]
+    · rw [hI hact] at hc; simp at hc
+  refine ⟨hcand, ?_⟩
+  intro hused
+  by_cases hd : (authorize ea perm res a now).decision = .deny
+  · rw [deny_cites_nothing ea perm res a now hd] at hused; simp at hused
+  · obtain ⟨_, _, _, wtn, hu, _, hor, _⟩ := allow_has_witness ea perm res a now hd
+    rw [hu] at hused
+    simp at hused
+    rcases hor with ⟨_, rfl⟩ | ⟨hm, _⟩ | ⟨s, _, _, _, rfl⟩
+    · simp [ownerCandidate] at hused
+    · exact hcand wtn hm hused
+    · simp [statementCandidate] at hused
+
+/-- A statement that narrows nothing but the permission matches every request for it. -/
+theorem blanket_statement_matches (ea : EA) (s : Statement) (perm : String) (r : Resource) (a : Auth) (now : Nat)
+    (hp : s.principals = []) (hg : s.groups = []) (ha : s.actions = [perm] ∨ s.actions = [])
+    (hr : s.resource = {}) (hc : s.conditions = {}) : statementMatches ea s perm r a now = true := by
+  have hcond : conditionsHold ({} : Conditions) a now = true := by
+    rw [conditionsHold_iff]; simp [authStrengthRank, purposeRank]
+  have hscope : scopeMatches ({} : Scope) r = true := by simp [scopeMatches, covers]
+  unfold statementMatches
+  rcases ha with ha | ha <;> simp [hp, hg, ha, hr, hc, hcond, hscope]
+
+/-- An explicit deny published by the control plane takes effect on the very next request: once the
+Space is bound to the policy and a blanket deny for the permission is published as its next version, every
+Principal's next request for that permission — the owner's included — is `Deny`. -/
+theorem deny_published_next_request (w : World) (pid space : String) (sts : List Statement) (s : Statement)
+    (a : Auth) (perm : String) (res : Resource) (now : Nat) (d : Authorization) (sp : SpaceRow)
+    (hs : s ∈ sts) (he : s.effect = "deny") (hp : s.principals = []) (hg : s.groups = [])
+    (ha : s.actions = [perm] ∨ s.actions = []) (hr : s.resource = {}) (hc : s.conditions = {})
+    (hsp : (w.publishPolicy pid sts).findSpace space = some sp) (hbound : sp.defaultPolicyId = pid) (hpid : pid ≠ "")
+    (hreq : request (w.publishPolicy pid sts) space a perm res now = .ok d) :
+    d.decision = .deny := by
+  unfold request at hreq
+  split at hreq
+  · simp at hreq
+  · rename_i ea hres
+    simp at hreq; subst hreq
+    obtain ⟨sp', hsp', hst⟩ := resolve_statements _ space a ea hres
+    rw [hsp] at hsp'; cases hsp'
+    obtain ⟨v, hv⟩ := activePolicy_publish w pid sts
+    rw [hbound] at hst
+    simp [hpid, hv] at hst
+    apply (deny_overrides ea perm res a now ⟨s, by rw [hst]; exact hs, he,
+      blanket_statement_matches ea s perm _ a now hp hg ha hr hc⟩).1
+
+example :
+    let w0 := (World.bootstrap.putSpace { id := "kip:space:default", ownerPrincipal := "kip:principal:system",
+                                          owners := ["kip:principal:system"], defaultPolicyId := "pol" })
+    let owner : Auth := { principalId := "kip:principal:system", authStrength := "strong" }
+    (request w0 "kip:space:default" owner "purge" {} 2050).toOption.map (·.decision) = some .allowWithConstraints ∧
+    (request (w0.publishPolicy "pol" [{ effect := "deny", actions := ["purge"] }]) "kip:space:default" owner "purge" {} 2050).toOption.map
+      (·.decision) = some .deny := by
   decide
 
 /-! ## Delegation never confers more than the delegator holds now -/
@@ -360,6 +459,95 @@ example :
     (request (w1.revokeGrant 1) "kip:space:default" a "read" {} 2050).toOption.map (·.decision) = some .deny := by
   decide
 
+/-- Expiry in the middle of a chain: once the linked parent Delegation of a re-delegation is outside its
+validity window, the re-delegation matches nothing (and so on down the chain, by induction over
+`redelegation_not_wider`); likewise a direct Delegation whose delegator is no owner and whose delegable
+authorities have all lapsed. -/
+theorem chain_expiry_cuts_descendants (w : World) (sp : SpaceRow) (fuel : Nat) (d : DelegationRow) (c : Candidate)
+    (perm : String) (res : Resource) (a : Auth) (now : Nat)
+    (h : resolveDelegation w sp (fuel + 1) d = .ok (some c)) :
+    (d.parent ≠ "" → ∀ linked inherited, d.parentRow = some linked.rowId → w.delegation linked.rowId = some linked →
+        resolveDelegation w sp fuel linked = .ok (some inherited) →
+        inherited.conditions.validUntil ≠ 0 → inherited.conditions.validUntil ≤ now →
+        candidateMatches c perm res a now = false) ∧
+    (d.parent = "" → ∀ p held, w.findPrincipal d.delegator = some p →
+        candidatesOf w sp (resolveDelegation w sp fuel) d.delegator (p.status = "active") = .ok held →
+        ¬(p.status = "active" ∧ isOwnerOf sp d.delegator = true) →
+        (∀ pc ∈ held, pc.delegationAllowed = true → pc.conditions.validUntil ≠ 0 ∧ pc.conditions.validUntil ≤ now) →
+        candidateMatches c perm res a now = false) := by
+  refine ⟨fun hp linked inherited hrow hl hin hne hle => ?_, fun hp p held hfp hheld hno hall => ?_⟩
+  · cases hm : candidateMatches c perm res a now with
+    | false => rfl
+    | true =>
+      obtain ⟨row, linked', inherited', hrow', hl', _, _, _, _, _, hin', c1, c2, c3, rfl⟩ := resolveDelegation_linked w sp fuel d _ hp h
+      rw [hrow] at hrow'; cases hrow'
+      rw [hl] at hl'; cases hl'
+      rw [hin] at hin'; cases hin'
+      obtain ⟨_, _, _, _, _, _, _, hmono⟩ := redelegation_not_wider w sp fuel d _ hp h
+      -- the inherited candidate is unique (same row), so it matches too
+      have : candidateMatches inherited perm res a now = true := by
+        simp only [candidateMatches, delegatedCandidate, Bool.and_eq_true] at hm ⊢
+        obtain ⟨⟨hact, hreach⟩, hcond⟩ := hm
+        have hin'' : perm ∈ inherited.actions := by
+          have := hact; simp at this; exact this.2
+        refine ⟨⟨by simpa using hin'', ?_⟩, conditionsHold_of_contains _ _ a now c2 hcond⟩
+        rcases Bool.or_eq_true _ _ ▸ hreach with hs | hs
+        · simp [hs]
+        · simp only [Bool.and_eq_true] at hs
+          simp only [Bool.or_eq_true, Bool.and_eq_true]
+          exact Or.inr ⟨scopeMatches_of_contains _ _ res c1 hs.1, reaches_of_contains _ _ res c3 hs.2⟩
+      rw [(expiry_effective inherited default default perm res a now).1 hne hle] at this
+      exact absurd this (by simp)
+  · cases hm : candidateMatches c perm res a now with
+    | false => rfl
+    | true =>
+      obtain ⟨p', held', hfp', hheld', _, _, _, hw⟩ := delegation_not_wider w sp fuel d c hp h
+      rw [hfp] at hfp'; cases hfp'
+      rw [hheld] at hheld'; cases hheld'
+      rcases hw perm res a now hm with hown | ⟨pc, hpc, hda, hpm⟩
+      · exact absurd hown hno
+      · obtain ⟨h1, h2⟩ := hall pc hpc hda
+        rw [(expiry_effective pc default default perm res a now).1 h1 h2] at hpm
+        exact absurd hpm (by simp)
+
+/-- What a resolved Delegation stands on: following `parent_delegation` links, at most `fuel` of them, ends
+at a direct Delegation. -/
+def groundedIn (w : World) : Nat → DelegationRow → Prop
+  | 0, _ => False
+  | n + 1, d => d.parent = "" ∨ ∃ linked, d.parentRow = some linked.rowId ∧ w.delegation linked.rowId = some linked ∧ groundedIn w n linked
+
+/-- Cycles and over-long chains confer nothing: a Delegation resolves only if its chain of parents is
+grounded in a direct Delegation within the depth bound. -/
+theorem delegation_chain_grounded (w : World) (sp : SpaceRow) :
+    ∀ (fuel : Nat) (d : DelegationRow) (c : Candidate), resolveDelegation w sp fuel d = .ok (some c) → groundedIn w fuel d
+  | 0, d, c, h => by simp [resolveDelegation] at h
+  | fuel + 1, d, c, h => by
+    by_cases hp : d.parent = ""
+    · exact Or.inl hp
+    · obtain ⟨row, linked, inherited, hrow, hl, _, _, _, _, _, hin, _⟩ := resolveDelegation_linked w sp fuel d c hp h
+      have hid : linked.rowId = row := by
+        have := List.find?_some hl; simpa using this
+      refine Or.inr ⟨linked, by rw [hid]; exact hrow, by rw [hid]; exact hl, delegation_chain_grounded w sp fuel linked inherited hin⟩
+
+example :
+    -- a two-cycle of re-delegations (each names the other as its parent) and a chain of depth 3 with its middle link revoked
+    let base := (((World.bootstrap.ensurePrincipal "lead").ensurePrincipal "mid").ensurePrincipal "bot").createGrant
+      { rowId := 0, spaceId := "kip:space:default", granteePrincipal := "lead", actions := ["read"], delegationAllowed := true }
+    let cyc := (base.createDelegation { rowId := 0, spaceId := "kip:space:default", delegator := "mid", delegate := "bot", actions := ["read"],
+                                        parent := "kip:delegation:2", parentRow := some 2, mayRedelegate := true }).createDelegation
+                 { rowId := 0, spaceId := "kip:space:default", delegator := "bot", delegate := "mid", actions := ["read"],
+                   parent := "kip:delegation:1", parentRow := some 1, mayRedelegate := true }
+    let chain := ((base.createDelegation { rowId := 0, spaceId := "kip:space:default", delegator := "lead", delegate := "mid", actions := ["read"], mayRedelegate := true }).createDelegation
+                   { rowId := 0, spaceId := "kip:space:default", delegator := "mid", delegate := "mid", actions := ["read"],
+                     parent := "kip:delegation:1", parentRow := some 1, mayRedelegate := true }).createDelegation
+                   { rowId := 0, spaceId := "kip:space:default", delegator := "mid", delegate := "bot", actions := ["read"],
+                     parent := "kip:delegation:2", parentRow := some 2 }
+    let bot : Auth := { principalId := "bot", authStrength := "standard" }
+    (request cyc "kip:space:default" bot "read" {} 2050).toOption.map (·.decision) = some .deny ∧
+    (request chain "kip:space:default" bot "read" {} 2050).toOption.map (·.authoritiesUsed) = some [.delegation 3] ∧
+    (request (chain.revokeDelegation 2) "kip:space:default" bot "read" {} 2050).toOption.map (·.decision) = some .deny := by
+  decide
+
 /-- Suspending, revoking or never registering the Principal that made a Delegation cuts that Delegation
 off: whenever a decision cites a Delegation, a row of that id exists whose delegator is a registered, active
 Principal — for direct Delegations and, since the repair of finding F-C19-4 (commit 3f00f56), for
@@ -410,7 +598,7 @@ theorem delegation_cut_by_suspension (w : World) (space : String) (a : Auth) (pe
             rcases hor with ⟨g, _, _, _, _, rfl⟩ | ⟨dr, hdr, _, _, _, hd⟩
             · simp [candidateOfGrant] at hused
             · exact ⟨_, dr, hdr, hd⟩
-          · obtain ⟨dr, hdr, hd⟩ := mem_resolveNamedChain w sp _ _ _ _ (hC hch hact) wtn hm
+          · obtain ⟨dr, hdr, _, hd⟩ := mem_resolveNamedChain w sp _ _ _ _ (hC hch hact) wtn hm
             exact ⟨_, dr, hdr, hd⟩
         · rw [hI hact] at hm; simp at hm
       obtain ⟨fuel, dr, hdr, hd⟩ := hsrc
